@@ -17,6 +17,7 @@ def printer_registry(prog):
 
 
 def check(prog, run):
+    check_verbatim_literals(prog, run, "T2")
     ncs = nodeshape.node_classes(prog)
     constructions = nodeshape.parser_constructions(prog)
     built = sorted({c.cls for c in constructions})
@@ -556,3 +557,34 @@ def check_indent(prog, run, rule_id="I1"):
                                "_indent(%r, %r) gives %r: not every line is prefixed (or something else is inserted), so a block string "
                                "printed inside an indented position does not read back as the same text" % (text, indent, got))
                     break
+
+
+def check_verbatim_literals(prog, run, rule_id):
+    """Tokens whose text IS their value are printed as that text, unchanged."""
+    from .. import boolx
+    r = run.rule(rule_id, "ASTPrinter prints the literals whose slot holds the token's own text - Name, IntValue, FloatValue, EnumValue - as "
+                          "exactly that slot on every execution (the returned path value is `<node>.value`): any conversion on the way "
+                          "(`str(int(..))`, `float`, case folding, stripping) re-spells `-0`, `1e3`, `1.50` or long integers, and the "
+                          "text read back is another node", 4)
+    pr = prog.get_class(PRINTER, "ASTPrinter")
+    for mname in ("print_name", "print_int_value", "print_float_value", "print_enum_value"):
+        m = pr.find_method(mname)
+        if m is None:
+            raise AnalysisError("C03.%s: ASTPrinter.%s not found" % (rule_id, mname))
+        run.looked_at(m)
+        ps = [x for x in m.params if x != prog.self_name(m)]
+        try:
+            _ev, exits = boolx.walk_under(m.node, lambda t: None)
+        except ValueError as e:
+            raise AnalysisError("C03.%s: %s" % (rule_id, e))
+        vals = set()
+        for kind, st, env in exits:
+            if kind == "return" and st.value is not None:
+                vals.add(" ".join(ast.unparse(boolx.path_subst(st.value, boolx.path_env(env.get(boolx.STMTS, ()), st))).split()))
+            else:
+                vals.add("<%s>" % kind)
+        r.instance("%s returns %s" % (mname, sorted(vals)))
+        if vals != {"%s.value" % ps[0]}:
+            run.report(r, "%s:ASTPrinter.%s:not-verbatim" % (PRINTER, mname), m.where(),
+                       "%s returns %s instead of the literal's own text `%s.value`: the printed token is re-spelled and does not read back "
+                       "as the same node" % (mname, sorted(vals), ps[0]))
